@@ -46,6 +46,8 @@ impl PolytuneState {
         state_handles
             .entry(computation_id)
             .or_insert_with(|| {
+                #[cfg(feature = "__verif")]
+                crate::verif::machine_event(Arc::as_ptr(&self.0) as usize, computation_id, true);
                 let (mut policy_state, state_handle) =
                     PolicyState::new(self.client_builder.clone(), Arc::clone(&self.concurrency));
                 if let Some(path) = &self.tmp_dir {
@@ -54,6 +56,8 @@ impl PolytuneState {
                 let state_cl = self.clone();
                 tokio::spawn(async move {
                     policy_state.start().await;
+                    #[cfg(feature = "__verif")]
+                    crate::verif::machine_event(Arc::as_ptr(&state_cl.0) as usize, computation_id, false);
                     state_cl.state_handles.write().await.remove(&computation_id);
                     debug!(%computation_id, "policy state machine finished and handle removed from state")
                 });
